@@ -149,6 +149,9 @@ def gen(rng, tier, n):
                     d[1].set(k, v)
             ops.append({"op": "validate", "args": {"schema": root, "docs": docs, "base": rng.choice([base, base, "::", "http://x.test/r#f"]),
                                                     "loader": loader, "insts": insts[:4]}, "meta": {"universe": True}})
+        elif rng.random() < 0.12:
+            from .. import gen_refs as _gr
+            ops.append({"op": "validate", "args": _gr.mixed_cycle(rng), "meta": {"universe": True, "mixed": True}})
         else:
             used = set()
             t = gt.gen_type(rng, 3, used, allow_known=0.1, allow_rec=0.3, allow_bad=0.3)
